@@ -7,8 +7,9 @@ import "fmt"
 // stuffing in any packet, pointer_field 0..n, trailing 0xFF or exact fit, arbitrary interleaving.
 
 type genUnit struct {
-	spec   unitSpec
-	chunks []int
+	spec    unitSpec
+	chunks  []int
+	partial bool // a PAT unit announcing only the first PMT PID (the later PAT units announce all of them)
 }
 
 func feasibleSLen(r *rng, tid int) int {
@@ -155,6 +156,8 @@ func genStreamScenario(r *rng, sid string, maxPIDs, maxUnits int) streamScenario
 		pids = append(pids, &pidState{pid: p, role: "pmt"})
 	}
 	genMinPrograms = npmt
+	// a growing PAT: its first unit announces only the first program; the other PMT PIDs start after a complete PAT announced them
+	growPAT := npmt >= 2 && r.intn(3) == 0
 	for _, p := range []int{0x10, 0x11, 0x12, 0x14} {
 		if len(pids) < maxPIDs && r.intn(3) == 0 {
 			pids = append(pids, &pidState{pid: p, role: "si"})
@@ -168,9 +171,18 @@ func genStreamScenario(r *rng, sid string, maxPIDs, maxUnits int) streamScenario
 	for _, ps := range pids {
 		ps.cc = r.intn(16)
 		nu := r.rangeInt(1, maxUnits)
+		if growPAT && ps.role == "pat" && nu < 2 {
+			nu = 2
+		}
 		for k := 0; k < nu; k++ {
 			uid++
 			var gu genUnit
+			gu.partial = growPAT && ps.role == "pat" && k == 0
+			if gu.partial {
+				genMinPrograms = 1
+			} else {
+				genMinPrograms = npmt
+			}
 			if ps.role == "es" {
 				hl := r.pick(6, 9, 14, 19)
 				bounded := r.boolean() || hl == 6
@@ -182,10 +194,17 @@ func genStreamScenario(r *rng, sid string, maxPIDs, maxUnits int) streamScenario
 				ptr := r.pick(0, 0, 0, 1, 5, r.intn(40))
 				u := unitSpec{ID: uid, PID: ps.pid, T: "psi", Ptr: ptr}
 				forb := map[int]bool{}
+				laterFull := false
 				off := 1 + ptr
 				for s := 0; s < nsec; s++ {
 					tid := tidForPID(r, ps.pid, ps.role)
 					sl := feasibleSLen(r, tid)
+					if gu.partial && (s == 0 || r.boolean()) {
+						sl = 13
+					} else if gu.partial {
+						sl = 9 + 4*r.rangeInt(npmt, 6) // only a later section of this unit announces the other programs
+						laterFull = true
+					}
 					u.Secs = append(u.Secs, secSpec{TID: tid, SLen: sl, Ident: 1 + (uid*37+s*7)%60000})
 					off += 3 + sl
 					if s < nsec-1 && (ps.role == "pat" || ps.role == "pmt") {
@@ -203,8 +222,8 @@ func genStreamScenario(r *rng, sid string, maxPIDs, maxUnits int) streamScenario
 				}
 				u.Total = off + u.Trail
 				// ISO 13818-1 2.4.4.1: the packet with payload_unit_start carries the first byte of the section
-				gu.spec = u
-				gu.chunks = partition(r, u.Total, ptr+2, forb)
+				part := gu.partial && !laterFull
+				gu = genUnit{spec: u, chunks: partition(r, u.Total, ptr+2, forb), partial: part}
 			}
 			ps.units = append(ps.units, gu)
 		}
@@ -216,6 +235,7 @@ func genStreamScenario(r *rng, sid string, maxPIDs, maxUnits int) streamScenario
 		cur[ps.pid] = &cursor{}
 	}
 	patDone := false
+	fullPatDone := !growPAT
 	remaining := func(ps *pidState) bool { return cur[ps.pid].u < len(ps.units) }
 	for {
 		var cands []*pidState
@@ -224,6 +244,9 @@ func genStreamScenario(r *rng, sid string, maxPIDs, maxUnits int) streamScenario
 				continue
 			}
 			if ps.role == "pmt" && !patDone && !(genEarlyPMT && r.intn(3) == 0) {
+				continue
+			}
+			if ps.role == "pmt" && !fullPatDone && ps.pid != sc.PMTPIDs[0] && !(genEarlyPMT && r.intn(3) == 0) {
 				continue
 			}
 			cands = append(cands, ps)
@@ -263,6 +286,9 @@ func genStreamScenario(r *rng, sid string, maxPIDs, maxUnits int) streamScenario
 		if c.c == len(gu.chunks) {
 			if ps.pid == 0 && c.u == 0 {
 				patDone = true
+			}
+			if ps.pid == 0 && !gu.partial {
+				fullPatDone = true
 			}
 			c.u++
 			c.c, c.off = 0, 0
